@@ -84,6 +84,11 @@ var (
 	ProbeHit [4]uint64
 )
 
+// DefaultHeapLimit (bytes of heap in use, sampled every 65536 steps) is armed
+// by Reset for every run, so that a runaway allocation ends as an abort of the
+// op instead of the kernel killing a worker at a load-dependent moment.
+var DefaultHeapLimit uint64
+
 // Plan is one preemption request: when the counter of Kind reaches At,
 // hand the token to task To (modulo the runnable set).
 type Plan struct {
@@ -107,7 +112,8 @@ func Reset(n int, plan []Plan, mapSeed uint64) {
 	abortAll = false
 	Deadlock = false
 	LockWaits = 0
-	heapLimit = 0
+	heapLimit = DefaultHeapLimit
+	heapKind = "heap-soft"
 	for i := 0; i < MaxTasks; i++ {
 		done[i] = false
 		blockedOn[i] = 0
@@ -146,6 +152,7 @@ func Reset(n int, plan []Plan, mapSeed uint64) {
 	nLocks = 0
 	nWG = 0
 	childAbort = ""
+	SimLimit = ""
 	for i := range exited {
 		exited[i] = false
 	}
@@ -242,8 +249,18 @@ func Finish(me int) {
 	token = next
 }
 
+var Trace bool
+
+//go:norace
+func trace(what string, a, b, c int) {
+	if Trace {
+		println("simrt:", what, a, b, c, "steps", Steps, "ntasks", ntasks)
+	}
+}
+
 //go:norace
 func logSwitch(from, to int, site uint32) {
+	trace("switch", from, to, int(site))
 	v := Steps<<16 | uint64(from)<<8 | uint64(to)
 	if NSwitch < MaxSwitch {
 		switchLog[NSwitch] = v
@@ -334,7 +351,7 @@ func step(site uint32) {
 		runtime.ReadMemStats(&ms)
 		if ms.HeapAlloc > heapLimit {
 			heapLimit = 0
-			panic(Abort{"heap"})
+			panic(Abort{heapKind})
 		}
 	}
 	event(KStep, site)
@@ -400,7 +417,12 @@ func OpEnd() {
 // 65536 steps.
 //
 //go:norace
-func SetHeapLimit(b uint64) { heapLimit = b }
+func SetHeapLimit(b uint64) { heapLimit = b; heapKind = "heap" }
+
+// heapKind: "heap" when a check armed the limit itself (the property bounds
+// memory), "heap-soft" for the default safety limit, whose only purpose is to
+// keep a worker from being killed by the kernel: such a run gives no verdict.
+var heapKind = "heap-soft"
 
 // ProbeEnter/ProbeLeave mark the current task as being inside a region the
 // harness cares about (index 0..3); ProbeHit[j] counts switches between two
